@@ -251,6 +251,7 @@ def _tag(x):
 @intrinsic('any_u8')
 def _any_u8(E, ci, tag):
     t = _tag(tag)
+    E.bounds_seen.add(f'any_u8({t}: all 256 values)')
     v = I('u8', E.fresh(t, 8))
     E.inputs.append(('u8', t, v))
     return v
@@ -259,6 +260,7 @@ def _any_u8(E, ci, tag):
 @intrinsic('any_bool')
 def _any_bool(E, ci, tag):
     t = _tag(tag)
+    E.bounds_seen.add(f'any_bool({t})')
     v = E.fresh_bool(t)
     E.inputs.append(('bool', t, v))
     return v
@@ -267,6 +269,7 @@ def _any_bool(E, ci, tag):
 @intrinsic('any_i64')
 def _any_i64(E, ci, tag):
     t = _tag(tag)
+    E.bounds_seen.add(f'any_i64({t}: all 2^64 values)')
     v = I('i64', E.fresh(t, 64))
     E.inputs.append(('i64', t, v))
     return v
@@ -275,6 +278,7 @@ def _any_i64(E, ci, tag):
 @intrinsic('any_u64')
 def _any_u64(E, ci, tag):
     t = _tag(tag)
+    E.bounds_seen.add(f'any_u64({t}: all 2^64 values)')
     v = I('u64', E.fresh(t, 64))
     E.inputs.append(('u64', t, v))
     return v
@@ -284,6 +288,7 @@ def _any_u64(E, ci, tag):
 def _choose(E, ci, tag, n):
     t = _tag(tag)
     n = n.v
+    E.bounds_seen.add(f'choose({t}: {n} alternatives)')
     v = 0
     while v < n - 1:
         if E.branch(E.fresh_bool(f'{t}=={v}')):
@@ -414,6 +419,7 @@ def gen_units(E, t, alpha, lo, hi):
 @intrinsic('any_bytes')
 def _any_bytes(E, ci, tag, alpha, lo, hi):
     t = _tag(tag)
+    E.bounds_seen.add(f'any_bytes({t}: {lo.v}..{hi.v} units of "{_tag(alpha)}")')
     items = gen_units(E, t, _tag(alpha), lo.v, hi.v)
     E.inputs.append(('bytes', t, list(items)))
     return VecV(items, 'Vec')
@@ -422,6 +428,7 @@ def _any_bytes(E, ci, tag, alpha, lo, hi):
 @intrinsic('any_str')
 def _any_str(E, ci, tag, alpha, lo, hi):
     t = _tag(tag)
+    E.bounds_seen.add(f'any_str({t}: {lo.v}..{hi.v} units of "{_tag(alpha)}")')
     items = gen_units(E, t, _tag(alpha), lo.v, hi.v)
     E.inputs.append(('bytes', t, list(items)))
     return VecV(items, 'String')
@@ -429,7 +436,6 @@ def _any_str(E, ci, tag, alpha, lo, hi):
 
 @intrinsic('assume')
 def _assume(E, ci, c):
-    E.assumes_seen = True
     E.assume(c)
     return UNIT
 
